@@ -334,3 +334,15 @@ CLAIMS["C30"] = (
     "Cardano/Ferrari radical form (their exact values are outside the value domain); image sets over (-oo, oo) are "
     "read as indexed by the integers (the library's stand-in) and the literal reading is reported as a known finding",
     "TLA+ solution-set semantics (three-valued membership) + exact/fixed-point root comparison + TLC trace validation")
+
+CLAIMS["C22"] = (
+    "model_checking",
+    "TLC enumerates pairs of integer- and expression-coefficient multivariate polynomials over 10 variable lists "
+    "(empty, equal, permuted, overlapping, disjoint) with 0-3 monomials (exponents 0-2, zero coefficients included, "
+    "symbolic and irrational coefficients); TLC validates from_dict, add, sub, mul, neg, pow (0, 1, 2, 3), eval, "
+    "as_symbolic and from_basic (with given and with automatically found generators, also of an unexpanded product) "
+    "against bag-of-monomials arithmetic over the union of the variables, with the structural conditions that the "
+    "variables of a result are exactly the union, exponent vectors are aligned with them and no zero coefficient is "
+    "stored",
+    "6/C22", TRUSTED + "; coefficients are compared in the value domain at one assignment of the coefficient symbols",
+    "TLA+ monomial-bag arithmetic + TLC trace validation")
